@@ -130,10 +130,99 @@ def run(check, mirror, tier):
 
     jobs.append(lambda c: decide(c, crate, "no_panic/item_definition_type", setup_idt, lambda ex, o, i: [], replay_item_definition, rb, models=MODELS, unwind=6,
                                  describe=desc, budget_s=600, min_paths=3, timeout_ms=20000, known_predicates=KNOWN_PRED))
+    # --- requirement cycles: the cycle detector that guards model building against unbounded recursion -------------------------------
+    NN = 3 if tier == "quick" else 4
+    DD = 2 if tier == "quick" else 3
+    check.bounds.append("find_cycle: dependency graphs with 0..%d keyed nodes, 0..%d targets per node, every target any keyed node or a node without an entry" % (NN, DD))
+
+    def setup_cycle(ex, st):
+        nkeys = ex.fresh_int(st, "usize", "n_nodes", constrain=False)
+        ex.assume(st, z3.And(nkeys.e >= 0, nkeys.e <= NN))
+        inputs = {"n_nodes": nkeys.e}
+        ents = []
+        for a in range(NN):
+            tg = []
+            for j in range(DD):
+                t = z3.Int(ex.fresh_name("target_%d_%d" % (a, j)))
+                ex.assume(st, z3.And(t >= 0, t <= NN))
+                inputs["target_%d_%d" % (a, j)] = t
+                tg.append(StrV(None, id=t))
+            vec, n = vec_sym(ex, st, "n_targets_%d" % a, tg)
+            inputs["n_targets_%d" % a] = n
+            ents.append(Adt("tuple", None, (StrV(None, id=z3.IntVal(a)), vec)))
+        edges = fv.MapV(nkeys.e, ents, "kv")
+        return "find_cycle", [Ref(ex.new_cell(st, edges, "edges"))], inputs
+
+    def reach_of(i):
+        """transitive closure of the symbolic graph (node NN stands for a target without an entry: no outgoing edges)"""
+        n = NN + 1
+        adj = [[z3.BoolVal(False)] * n for _ in range(n)]
+        for a in range(NN):
+            for b in range(n):
+                adj[a][b] = z3.And(i["n_nodes"] > a, z3.Or([z3.And(i["n_targets_%d" % a] > j, i["target_%d_%d" % (a, j)] == b) for j in range(DD)]))
+        reach = [row[:] for row in adj]
+        for k in range(n):
+            reach = [[z3.Or(reach[a][b], z3.And(reach[a][k], reach[k][b])) for b in range(n)] for a in range(n)]
+        return reach
+
+    def post_cycle(ex, o, i):
+        reach = reach_of(i)
+        cyclic = z3.Or([reach[a][a] for a in range(NN)])
+        r = o.value
+        found = r.disc == 1
+        out = [("a dependency graph with a cycle is reported", z3.Implies(cyclic, found)),
+               ("a dependency graph without a cycle is accepted", z3.Implies(found, cyclic)),
+               ("reach:cyclic", cyclic), ("reach:acyclic", z3.Not(cyclic))]
+        if "Some" in r.alts and r.alts["Some"]:
+            node = fv._rank(deref(ex, None, r.alts["Some"][0]) if isinstance(r.alts["Some"][0], Ref) else r.alts["Some"][0])
+            out.append(("the reported node lies on a cycle", z3.Implies(found, z3.Or([z3.And(node == a, reach[a][a]) for a in range(NN)]))))
+        return out
+
+    jobs.append(lambda c: decide(c, crate, "cycles/find_cycle", setup_cycle, post_cycle, replay_cycle, rb, models=MODELS, unwind=2 * NN * (DD + 1) + 4,
+                                 describe=desc, budget_s=900, min_paths=4, timeout_ms=20000, known_predicates=KNOWN_PRED, unwound_is_violation=True,
+                                 need_reach=["reach:cyclic", "reach:acyclic"]))
     # the evaluation closure of a decision service (dangling output decision references must not panic; shared with C11's output side)
     from checks import C11_output
     C11_output.jobs_for(check, mirror, rb, crate, fv.Universe(mirror), jobs, tier, KNOWN_PRED)
     run_parallel(check, jobs)
+
+
+def replay_cycle(i, rb):
+    """A model whose decisions require each other the way the graph says (targets without an entry are input data): a graph with a
+    cycle must be refused when the model is built, a graph without one must build and evaluate; a crash is a violation either way."""
+    n = i["n_nodes"]
+    keyed = lambda t: t < n
+    graph = {a: [i["target_%d_%d" % (a, j)] for j in range(i["n_targets_%d" % a])] for a in range(n)}
+    state = {}
+
+    def cyclic_from(a):
+        if state.get(a) == 1:
+            return True
+        if state.get(a) == 2:
+            return False
+        state[a] = 1
+        r = any(keyed(b) and cyclic_from(b) for b in graph[a])
+        state[a] = 2
+        return r
+    cyclic = any(cyclic_from(a) for a in range(n))
+    x = ['<?xml version="1.0" encoding="UTF-8"?><definitions namespace="https://verif" name="m" id="_m" xmlns="https://www.omg.org/spec/DMN/20191111/MODEL/">',
+         '<inputData name="x" id="_x"><variable name="x" typeRef="number"/></inputData>']
+    for a in range(n):
+        reqs = "".join('<informationRequirement><requiredDecision href="#_d%d"/></informationRequirement>' % b if keyed(b) else
+                       '<informationRequirement><requiredInput href="#_x"/></informationRequirement>' for b in graph[a])
+        x.append('<decision name="d%d" id="_d%d"><variable name="d%d"/>%s<literalExpression><text>1</text></literalExpression></decision>' % (a, a, a, reqs))
+    x.append("</definitions>")
+    if n == 0:
+        return False, "empty graph"
+    bad, outs = False, []
+    for a in range(n):
+        rc, out, errtxt = replay_call(rb, ["model_eval", "".join(x), "d%d" % a, "{x: 1}"])
+        crashed = rc != 0 or out.startswith("PANIC") or "overflowed its stack" in errtxt
+        refused = out.startswith("BUILD-ERROR") and "cyclic" in out
+        if crashed or (cyclic and not refused) or (not cyclic and not out.startswith("VALUE 1")):
+            bad = True
+        outs.append("d%d: %s" % (a, ("CRASH rc=%s %s" % (rc, errtxt.strip()[-60:])) if crashed else out[:90]))
+    return bad, "decisions %s (%s) -> %s" % (graph, "cyclic" if cyclic else "acyclic", "; ".join(outs))
 
 
 def replay_item_definition(i, rb):
